@@ -654,7 +654,12 @@ def targeted(ctx):
         for kind in ("default_rng", "RandomState"):
             case = {"kind": kind, "seed": 11 + tried, "dist": "normal", "shape": [2 * n for n in nb], "chunks": [[2] * n for n in nb]}
             tried += 1
-            check_case(ctx, case, nprog=4)
+            try:
+                with_timeout(60, lambda: check_case(ctx, case, nprog=4))
+            except Hang:
+                ctx.fail("random:hang", case, "building / optimising / computing a random array does not finish within 60 s")
+                ctx.notes["targeted_search"] = f"stopped after a hang ({tried} arrays)"
+                return
     ctx.notes["targeted_search"] = f"{tried} random arrays with the disagreeing block grids: recompute / slices / culling / fusion vs first realisation"
 
 
@@ -679,7 +684,10 @@ def run(ctx, replay=None):
         case = replay.get("case", replay)
         if "kind" in case and "dist" in case:
             c = {k: case[k] for k in ("kind", "seed", "dist", "shape", "chunks", "prefix") if k in case}
-            check_case(ctx, c, progs=[case["prog"]] if "prog" in case else None, nprog=4)
+            try:
+                with_timeout(120, lambda: check_case(ctx, c, progs=[case["prog"]] if "prog" in case else None, nprog=4))
+            except Hang:
+                ctx.fail("random:hang", c, "building / optimising / computing a random array does not finish within 120 s")
         else:
             probe_known(ctx)
             ctx.correspond("flat_index", flat_pairs(ctx))
@@ -694,9 +702,9 @@ def run(ctx, replay=None):
     ctx.exhaustive = True
     ctx.extra["exhaustive_domain"] = "_block_id_to_flat_index: every block id of every grid of rank<=3 with <=40 blocks (sizes 1..3 quick / 1..4 thorough), with and without a trailing extra_chunks coordinate"
     try:
-        with_timeout(120, lambda: probe_known(ctx))
+        with_timeout(60, lambda: probe_known(ctx))
     except Hang:
-        ctx.fail("random:hang", {"where": "probe_known"}, "the known-class probes do not finish within 120 s")
+        ctx.fail("random:hang", {"where": "probe_known"}, "the known-class probes do not finish within 60 s")
     search(ctx)
     if ctx.disagreements:
         targeted(ctx)
